@@ -316,7 +316,10 @@ def check(case):
             warm = oracle(fm, model, ops)
             if warm:
                 return warm
-            edit(fm)
+            try:
+                cm.checked_edit(fm, edit, model, em, what)
+            except cm.ModelMutatedByLibrary as exc:
+                return [Fail('operations-mutate-the-model', str(exc)[:300])]
             after = oracle(fm, em, ops)
             for f in after:
                 f.clause = 'after-inplace-edit:' + f.clause
